@@ -32,8 +32,8 @@ ILit(i) == [n |-> "int", v |-> i]
 FLit(q) == [n |-> "float", v |-> q]
 Leaves == {ILit(i) : i \in IntLits} \cup {FLit(q) : q \in FloatLits}
 BinE(op, l, r) == [n |-> "bin", op |-> op, l |-> l, r |-> r]
-\* exponents are restricted to small non-negative integer literals (keeps rationals closed)
-ExpOK(op, r) == op # "**" \/ (r.n = "int" /\ r.v \in 0..3)
+\* exponents are restricted to small integer literals (keeps rationals closed; 0 ** -n is +Inf: value outside the model)
+ExpOK(op, r) == op # "**" \/ (r.n = "int" /\ r.v \in -2..3)
 D1 == {BinE(op, l, r) : op \in Ops, l \in Leaves, r \in {x \in Leaves : TRUE}} 
 Depth1 == {e \in D1 : ExpOK(e.op, e.r)}
 Outer == IF Deep THEN Leaves ELSE {ILit(0), ILit(3), FLit(<<-3,2>>)}
@@ -74,6 +74,9 @@ Fold(e) ==
   IF e.n # "bin" THEN [rej |-> FALSE, ovf |-> FALSE, e |-> e]
   ELSE LET l == Fold(e.l)  r == Fold(e.r) IN
        IF l.rej \/ r.rej THEN [rej |-> TRUE, ovf |-> FALSE, e |-> e]
+       \* a literal-zero divisor is refused whatever constant the dividend folded to (even one outside the model)
+       ELSE IF e.op \in {"/", "%"} /\ ~r.ovf /\ IsLit(r.e) /\ (IF r.e.n = "int" THEN r.e.v = 0 ELSE r.e.v[1] = 0)
+               /\ (l.ovf \/ IsLit(l.e)) THEN [rej |-> TRUE, ovf |-> FALSE, e |-> e]
        ELSE IF l.ovf \/ r.ovf THEN [rej |-> FALSE, ovf |-> TRUE, e |-> e]
        ELSE IF e.op \in Ops /\ IsLit(l.e) /\ IsLit(r.e) THEN FoldOp(e.op, l.e, r.e)
        ELSE [rej |-> FALSE, ovf |-> FALSE, e |-> BinE(e.op, l.e, r.e)]
